@@ -2,7 +2,7 @@
    concurrently.  Theorems only.  PARTIAL: real GIL schedules and third-party
    process-wide state (lark, jsonref, re caches) are outside the model; they are
    exercised by the hunter with real threads. *)
-From MF Require Import Lib.Base Model.GrammarTypes Model.Lexer Model.LR Model.Transformer Model.Api Model.Workers
+From MF Require Import Lib.Base Model.GrammarTypes Model.Lexer Model.LR Model.Transformer Model.Api Model.Workers Model.PPrint Proofs.PrintU
   Model.SlotDoc Model.SlotCheck Model.PPrint Proofs.C12 Proofs.SlotsAll Gen.SharedState.
 
 (* [U] a reused Parser object: the result of parse depends on the text only,
@@ -35,10 +35,31 @@ Theorem C12_interleaving_irrelevant :
 Proof. exact interleaving_irrelevant. Qed.
 Print Assumptions C12_interleaving_irrelevant.
 
-(* [F] PARTIAL purity of dumps: for every root-level document of the slot
-   product the dictionary after printing (separate_complex_types off) equals the
-   argument; universal purity is covered by the correspondence runs, which
-   compare the dictionary after every real pprint call with the model's *)
+(* [U] purity of dumps (Proofs/PrintU_Pure.v, agent prover-printer): with
+   separate_complex_types off, the dictionary after ANY successful print is the
+   argument itself; with it on, the argument is only reordered - in every dict
+   the printer descends into the block-named keys are moved behind the others as
+   a stable partition (same keys, same values: a permutation at every level) -
+   and that reordering does happen ([R]); printing the dictionary left behind
+   again gives the same text and leaves it as it is. *)
+Theorem C12_print_leaves_argument_unchanged :
+  forall o d s d', separate_complex_types o = false -> pprint o d = Ok (s, d') -> d' = d.
+Proof. exact pprint_argument_unchanged. Qed.
+Print Assumptions C12_print_leaves_argument_unchanged.
+
+Theorem C12_print_only_reorders_argument :
+  forall o d s d', uniq_keys d = true -> pprint o d = Ok (s, d') -> reordered d d'.
+Proof. exact pprint_argument_reordered. Qed.
+Print Assumptions C12_print_only_reorders_argument.
+
+Theorem C12_separate_complex_types_reorders_refuted :
+  exists o d s d', separate_complex_types o = true /\ uniq_keys d = true
+                   /\ pprint o d = Ok (s, d') /\ d' <> d /\ d' = arg_after true d.
+Proof. exact pprint_argument_unchanged_sct_refuted. Qed.
+Print Assumptions C12_separate_complex_types_reorders_refuted.
+
+(* [F] purity of dumps on every root-level document of the slot product (kept:
+   it runs the whole printer model on real vocabulary) *)
 Theorem C12_print_pure_on_slot_product_partial :
   forall sd, In sd all_slotdocs -> root_only sd = true -> print_pure sd = true.
 Proof. exact print_pure_all_slots. Qed.
